@@ -41,6 +41,64 @@ func childExtra(r *mon.Run, out *childOut) {
 	largeGroups(r, out)
 	nameSpellings(r, out)
 	deadlines(r, out)
+	cleanExact(r, out)
+}
+
+// cleanExact: names with mixed lifetimes (joins and refreshes that move a deadline earlier or
+// later); an expiry sweep must remove exactly the names whose armed deadline — read from the live
+// table just before the sweep — lies before the sweep started, and keep those whose deadline lies
+// after it ended.
+func cleanExact(r *mon.Run, out *childOut) {
+	ttls := []time.Duration{time.Hour, -time.Hour, 24 * time.Hour, -time.Minute, 10 * time.Minute, time.Duration(1<<31) * time.Second, -24 * time.Hour}
+	for run := 0; run < r.Pick(150, 3000); run++ {
+		rng := r.Rand(fmt.Sprintf("cleanexact|%d", run))
+		t := nbtns.NewNetBIOSNameServer(false)
+		names := []string{"CE-A", "CE-B", "CE-C", "CE-D", "CE-E"}
+		var trace []string
+		for s := 0; s < 30; s++ {
+			name := names[rng.IntN(len(names))]
+			a := bigAddr(rng.IntN(4))
+			ttl := ttls[rng.IntN(len(ttls))]
+			switch rng.IntN(6) {
+			case 0, 1, 2:
+				ty := nbtns.Group
+				if rng.IntN(4) == 0 {
+					ty = nbtns.Unique
+				}
+				t.RegisterName(name, ty, a, ttl)
+				trace = append(trace, fmt.Sprintf("Register(%s,%v,%v,%v)", name, ty, a, ttl))
+			case 3:
+				t.RefreshName(name, a)
+				trace = append(trace, fmt.Sprintf("Refresh(%s,%v)", name, a))
+			case 4:
+				t.ReleaseName(name, a)
+				trace = append(trace, fmt.Sprintf("Release(%s,%v)", name, a))
+			default:
+				before := t.VerifSnapshot()
+				t0 := time.Now()
+				t.CleanExpiredNames()
+				t1 := time.Now()
+				after := t.VerifSnapshot()
+				out.res.Evals++
+				for n, rec := range before {
+					_, still := after[n]
+					if rec.TTL.Before(t0) && still {
+						out.violation("W3:clean:expired-name-kept", fmt.Sprintf("after %v: %s had its deadline %v before the sweep and is still in the table", trace, n, t0.Sub(rec.TTL)), map[string]any{"trace": trace, "name": n}, 1)
+						return
+					}
+					if rec.TTL.After(t1) && !still {
+						out.violation("W3:clean:live-name-removed", fmt.Sprintf("after %v: %s had its deadline %v after the sweep and was removed", trace, n, rec.TTL.Sub(t1)), map[string]any{"trace": trace, "name": n}, 1)
+						return
+					}
+				}
+				trace = append(trace, "Clean()")
+			}
+			if len(trace) > 30 {
+				trace = trace[len(trace)-30:]
+			}
+		}
+		out.res.Nontrivial = append(out.res.Nontrivial, fmt.Sprintf("cleanexact|%d", run))
+	}
 }
 
 // largeGroups: one group name, N members, seeded register/release/refresh/query sequences
@@ -194,7 +252,9 @@ func nameSpellings(r *mon.Run, out *childOut) {
 // two clock readings around the call, so the judgement is a containment, not a timeout.
 func deadlines(r *mon.Run, out *childOut) {
 	rng := r.Rand("deadlines")
-	ttls := []time.Duration{time.Hour, 5 * time.Minute, 37 * time.Second, 24 * time.Hour, -time.Hour, 300 * time.Millisecond}
+	ttls := []time.Duration{time.Hour, 5 * time.Minute, 37 * time.Second, 24 * time.Hour, -time.Hour, 300 * time.Millisecond,
+		// the TTL field of an NBNS record is 32 bits of seconds: the top of that range must stay in the future
+		time.Duration(1<<31-1) * time.Second, time.Duration(1<<31) * time.Second, time.Duration(1<<32-1) * time.Second, time.Duration(3000000000) * time.Second}
 	for run := 0; run < r.Pick(200, 4000); run++ {
 		t := nbtns.NewNetBIOSNameServer(false)
 		ttl := ttls[rng.IntN(len(ttls))]
